@@ -339,7 +339,8 @@ def decode(ints, prog):
 
 # ----------------------------------------------------------------------------- generator
 class RecipeGen:
-    def __init__(self, rng, nsteps, allow_d13=False, with_solutions=True, allow_rename=False):
+    def __init__(self, rng, nsteps, allow_d13=False, with_solutions=True, allow_rename=False, p_over=0.2):
+        self.p_over = p_over      # share of capacity-declaring create steps whose contents do not fit
         self.rng = rng
         self.allow_rename = allow_rename
         g = gen.Gen(rng)
@@ -398,6 +399,16 @@ class RecipeGen:
                     w = {'s': self.g.sub()['id']}
                     t = {'c': o['name']} if o['t'] == 'c' else {'p': o['name'], 'r': self.whole(o['name'])}
                     self.try_step({'op': 'remove', 't': t, 'w': w})
+        else:
+            # the recipe ends with a step that cannot be performed: the objects no step touches are touched FIRST (a removal of a substance
+            # from each), so that bake has no other reason to refuse than that step.  (The ledger of a failing recipe is not used.)
+            pre = []
+            for o in self.objects:
+                if o['name'] not in used:
+                    t = {'c': o['name']} if o['t'] == 'c' else {'p': o['name'], 'r': self.whole(o['name'])}
+                    pre.append({'op': 'remove', 't': t, 'w': {'s': self.g.sub()['id']}})
+            self.steps = pre + self.steps
+            self.failed = (self.failed[0] + len(pre),) + tuple(self.failed[1:])
         self.stages = self.make_stages()
 
     def fresh(self):
@@ -561,7 +572,7 @@ class RecipeGen:
                 # a declared capacity: roomy, or (rarely) smaller than the listed contents -- performing the step then fails, and so must bake
                 from pyplate import Container
                 vol = Container('probe', initial_contents=[(E.subs[s], dsl.qty_str(q)) for s, q in init]).volume * 1e-6
-                over = rng.random() < 0.2
+                over = rng.random() < self.p_over
                 st['max'] = gen.pick_qty(rng, vol * (rng.choice([0.5, 0.8]) if over else rng.choice([1.5, 3])), 'L', sig=2)
                 tag = 'create:over-capacity' if over else 'create:capacity'
             self.try_step(st, tag)
